@@ -279,7 +279,10 @@ C05_Trans ==
      [name |-> "trv", stmts |-> <<SRet(PBin("+", PVar("v"), PVar("match")))>>],
      \* the built-ins are visible inside a transform whether or not they are also named as plain items
      [name |-> "tbi", stmts |-> <<SRet(PBin("+", PBin("+", PVar("startOffset"), PStr(<<45>>)), PBin("+", PVar("endOffset"), PBin("+", PStr(<<47>>), PVar("totalMatches")))))>>],
-     [name |-> "tbv", stmts |-> <<SRet(PBin("+", PVar("value"), PBin("+", PVar("lineNumber"), PBin("+", PStr(<<58>>), PVar("columnNumber")))))>>] >>
+     [name |-> "tbv", stmts |-> <<SRet(PBin("+", PVar("value"), PBin("+", PVar("lineNumber"), PBin("+", PStr(<<58>>), PVar("columnNumber")))))>>],
+     \* a return inside a loop ends the transform, not just the loop
+     [name |-> "tlr", stmts |-> <<[k |-> "loop", body |-> <<SIf(PBin("<", PVar("matchLength"), PNum(2)), <<SRet(PStr(<<83>>))>>, <<>>), [k |-> "brk"]>>],
+                                  SRet(PStr(<<76>>))>>] >>
 
 C05_Items ==
   { WStr(<<60>>), WStr(<<>>), WStr(<<ba, bb>>), WName("x"), WName("y"), WName("nope"),
